@@ -118,6 +118,8 @@ SHAPES = {
     "envelope_unknown_encoding": {"content": "00", "contentType": "rot13"}, "envelope_missing_content": {"contentType": "hex"},
     "bool_for_int": True, "number_for_bytes": 1, "number_2": 2, "string_yes": "yes", "ref_without_hash": "abcd",
     "ref_bad_index": "abcd#x", "ref_odd_txid": "abc#1", "number_too_big": 1e40, "empty_string": "",
+    # texts whose second / third byte is inside a multi-byte character (where a two-byte prefix would be cut)
+    "text_a_euro": "a\u20ac", "text_euro": "\u20ac", "text_emoji": "\U0001F600" + "00", "text_zero_e_acute": "0\u00e9", "text_0x_euro": "0x\u20ac1",
 }
 
 PARAM_TYPES = {"quantity": "Int", "owner": "Address", "memo": "Bytes", "flag": "Bool"}
